@@ -64,3 +64,15 @@ Example C16_example :
   snd (cv_step _ _ _ parse compile validate (cv_run _ _ _ parse compile validate [call; (bs "$.", bs "x", []); call] (empty_caches _ _)) call)
   = CVDone _ (bs "$.a", 6%nat, bs "s1").
 Proof. vm_compute. reflexivity. Qed.
+
+(** the state the cache theorems are about is ALL the state there is: apart from one mutex, the
+    scanner pool (C08) and the two caches, the package has no variable that is written after
+    initialisation and no self-synchronising value (sync.Map, sync.Once, atomic values) — Generated/State.v,
+    regenerated from the source on every run.  A new process-wide memo, counter or table is a new way
+    for one call to influence the next and is not covered by [C16_cache_transparent]. *)
+From Coq Require Import String List.
+From Mpath.Generated Require State.
+Theorem C16_state_inventory :
+  map fst Mpath.Generated.State.package_state = ["mutex"; "pool"; "variable"; "variable"]%string.
+Proof. reflexivity. Qed.
+Print Assumptions C16_state_inventory.
